@@ -215,19 +215,26 @@ _UF = {}
 
 
 def _all_structured(bound):
-    """Every text argument is concrete or structured without opaque parts (each unknown piece has a
-    finite character set, e.g. a letter in either case or a run of blanks)."""
+    """Can the real body decide the call?  Not if an argument is a message about which nothing is
+    known (a text that is one opaque atom, undecoded bytes, an abstract line, an opaque value);
+    structured texts (case variants, blanks, guarded pieces) and containers of values are fine."""
     from .strings import XStr, Atom
+    from .dsl import OpaqueVal
     seen = False
     for v in bound.values():
         if isinstance(v, str):
             seen = True
         elif isinstance(v, XStr):
             seen = True
-            if any(isinstance(p, Atom) and p.only is None for _, p in v.segs):
+            if v.segs and all(isinstance(p, Atom) and p.only is None for _, p in v.segs):
                 return False
-        elif type(v).__name__ in ('SDecoded', 'AbsLine'):
+        elif isinstance(v, OpaqueVal.Val) or type(v).__name__ in ('SDecoded', 'AbsLine'):
             return False
+        elif isinstance(v, (SDict, SList)):
+            seen = True
+            inner = list(v.d.values()) if isinstance(v, SDict) else list(v.items)
+            if any(isinstance(x, OpaqueVal.Val) for x in inner):
+                return False
     return seen
 
 
@@ -247,8 +254,35 @@ def abstract_call(it, c, fn, bound):
             raise I.PyRaise(exc_cls, ('<unparseable>',))
     if c.returns is None:
         return None
-    result = c.returns.fresh(ctx, f'ret_{fn.__name__}')
+    return _abstract_value(it, c, fn, bound, f'ret_{fn.__name__}')
+
+
+def _argkey(v):
+    from .strings import XStr
+    from .dsl import OpaqueVal
+    if isinstance(v, OpaqueVal.Val):
+        return ('opaque', v.name)
+    if isinstance(v, XStr):
+        return ('text', v.term().sexpr())
+    if isinstance(v, (SInt, SEnum, SBool)):
+        return ('term', v.t.sexpr())
+    if isinstance(v, (str, int, bool, enum.Enum, type(None))) or isinstance(v, type):
+        return ('const', repr(v))
+    if type(v).__name__ == 'SDecoded':
+        return ('bytes', str(v.raw.n), v.raw.arr.sexpr())
+    return ('object', id(v))
+
+
+def _abstract_value(it, c, fn, bound, hint):
+    """The (single) value a pure parser returns for these arguments on this path."""
+    ctx = it.ctx
+    cache = ctx.__dict__.setdefault('abstract_cache', {})
+    key = (c.qualname, tuple(_argkey(v) for v in bound.values()))
+    if key in cache:
+        return cache[key]
+    result = c.returns.fresh(ctx, hint)
     _tie_to_uf(it, c, fn, bound, result)
+    cache[key] = result
     return result
 
 
@@ -275,6 +309,13 @@ def _tie_to_uf(it, c, fn, bound, result):
             terms = None
             break
     outs = []
+    from .dsl import OpaqueVal
+    if isinstance(result, OpaqueVal.Val) and terms is None:
+        # an opaque result of an opaque argument: identified by the argument's identity
+        ids = [getattr(v, 'name', None) for v in bound.values() if isinstance(v, OpaqueVal.Val)]
+        if ids:
+            result.name = f'{fn.__name__}({", ".join(ids)})'
+        return
     if isinstance(result, (SEnum, SInt)):
         outs = [result.t]
     elif is_card(result) and isinstance(result, SObj):
@@ -692,10 +733,7 @@ def intrinsic(it, name, args, kwargs):
         if c2 is None:
             raise EngineError('abstract_result: no contract')
         b2 = bind_args(f, list(args[1:]), {})
-        ctx2 = it.ctx
-        result = c2.returns.fresh(ctx2, f'spec_{f.__name__}')
-        _tie_to_uf(it, c2, f, b2, result)
-        return result
+        return _abstract_value(it, c2, f, b2, f'spec_{f.__name__}')
     if name == 'starts_with':
         from .strings import XStr
         x, lit = args
